@@ -252,18 +252,27 @@ Definition parse_cookie (s : str) : list (str * str) :=
 (* ------------------------------------------------------------------ *)
 (* _parseparam / _parse_header / _encode_header                       *)
 (* ------------------------------------------------------------------ *)
-(* _parseparam(';' + line): the fields between the ';' at which the number of
-   double quotes not immediately preceded by a backslash, counted from the field
-   start, is even (s.count(DQUOTE) - s.count(BACKSLASH DQUOTE) accumulated over
-   the ';'-delimited pieces).
+(* _parseparam(';' + line) with
+     _PARAM_RE = (?:[^;DQ]+|DQ(?:[^DQ BS]+|BS.|BS$)*(?:DQ|$))*      (DOTALL; DQ = double quote, BS = backslash)
+   one field = everything up to the next ';' that is not inside a quoted string.  A double
+   quote opens a quoted string anywhere; inside it a backslash escapes the next character (a
+   lone trailing backslash is consumed too); an unterminated quote runs to the end.  The
+   alternatives start with distinct characters and the pattern can always stop, so the regex
+   engine never backtracks: a scanner with an in-quote flag [inq] and an escape flag [esc].
    Returns the first field and the others, unstripped. *)
-Fixpoint split_params (s : str) (par prev_bs : bool) (cur : str) : str * list str :=
+Fixpoint split_params (s : str) (inq esc : bool) (cur : str) : str * list str :=
   match s with
   | [] => (rev cur, [])
   | c :: r =>
-      if (c =? 59) && negb par
-      then let '(f, fs) := split_params r false false [] in (rev cur, f :: fs)
-      else split_params r (if (c =? 34) && negb prev_bs then negb par else par) (c =? 92) (c :: cur)
+      if inq then
+        if esc then split_params r true false (c :: cur)
+        else if c =? 92 then split_params r true true (c :: cur)
+        else if c =? 34 then split_params r false false (c :: cur)
+        else split_params r true false (c :: cur)
+      else
+        if c =? 59 then let '(f, fs) := split_params r false false [] in (rev cur, f :: fs)
+        else if c =? 34 then split_params r true false (c :: cur)
+        else split_params r false false (c :: cur)
   end.
 
 (* s.replace(chr a + chr b, chr c) *)
